@@ -25,8 +25,12 @@ type c08Rollouts struct {
 // c08MakeRollouts: 0..2 Rollouts in the namespace; at most one active one references the workload (the validating
 // webhook refuses a second Rollout for the same workload, C09).
 func c08MakeRollouts(apiVersion, kind string) *c08Rollouts {
+	return c08MakeRolloutsN(apiVersion, kind, verifrt.Bound("rollouts", 1, 2))
+}
+
+func c08MakeRolloutsN(apiVersion, kind string, maxN int) *c08Rollouts {
 	out := &c08Rollouts{}
-	n := verifrt.Concrete(verifrt.IntRange("nRollouts", 0, verifrt.Bound("rollouts", 1, 2)))
+	n := verifrt.Concrete(verifrt.IntRange("nRollouts", 0, maxN))
 	for i := 0; i < n; i++ {
 		r := appsv1beta1.Rollout{ObjectMeta: metav1.ObjectMeta{Namespace: "ns", Name: "ro-" + string(rune('a'+i))}}
 		matches := verifrt.Bool("ro.matches")
@@ -101,6 +105,22 @@ func c08Annotations(name string) (map[string]string, map[string]string, bool, bo
 		newA[appsv1beta1.RolloutIDLabel] = newID
 	}
 	return oldA, newA, newID != "", oldID != newID
+}
+
+// VerifC08_FetchMatchedRollout: among up to three Rollouts of the namespace (matching or not, active, disabled or
+// being deleted, in any list order) the look-up returns exactly the active Rollout that references the workload.
+func VerifC08_FetchMatchedRollout() {
+	rs := c08MakeRolloutsN("apps.kruise.io/v1alpha1", "CloneSet", verifrt.Bound("lookup.rollouts", 2, 3))
+	h := &WorkloadHandler{Client: rs.client()}
+	obj := &kruiseappsv1alpha1.CloneSet{TypeMeta: metav1.TypeMeta{APIVersion: "apps.kruise.io/v1alpha1", Kind: "CloneSet"},
+		ObjectMeta: metav1.ObjectMeta{Namespace: "ns", Name: "w"}}
+	got, err := h.fetchMatchedRollout(obj)
+	verifrt.Assert(err == nil, "C08.lookup.noError")
+	if rs.activeMatch == nil {
+		verifrt.Assert(got == nil, "C08.lookup.noneWhenNoActiveRolloutMatches")
+	} else {
+		verifrt.Assert(got != nil && got.Name == rs.activeMatch.Name, "C08.lookup.findsTheActiveMatchingRollout")
+	}
 }
 
 func VerifC08_CloneSet() {
